@@ -18,7 +18,8 @@ from typing import Dict, List, Optional, Tuple
 
 from . import common
 
-WORK = os.environ.get('VERIF_WORK', '/var/tmp/mpg_verif_work')
+# one directory per check process: concurrent checks must not remove each other's files
+WORK = os.path.join(os.environ.get('VERIF_WORK', '/var/tmp/mpg_verif_work'), 'p%d' % os.getpid())
 
 
 def work_dir(tag: str) -> str:
